@@ -154,3 +154,19 @@ func RenderResult(v any, render func(any) string) string {
 		return fmt.Sprintf("%T:", v) + render(x)
 	}
 }
+
+// SnapshotHandle takes a point-in-time snapshot handle (what raft does first); PersistHandle writes it
+// out later (raft persists in the background while further commands are applied).
+func (r *Replica) SnapshotHandle() (raft.FSMSnapshot, error) { return r.FSM.Snapshot() }
+
+func PersistHandle(snap raft.FSMSnapshot) ([]byte, error) {
+	defer snap.Release()
+	s := &sink{}
+	if err := snap.Persist(s); err != nil {
+		return nil, err
+	}
+	if s.cancelled {
+		return nil, errors.New("sink cancelled")
+	}
+	return s.Bytes(), nil
+}
